@@ -112,6 +112,11 @@ Proof.
   - (* SetFlag *) inversion Hstep; subst. unfold inv; cbn. apply Forall_set_thread; auto.
   - (* Again *) inversion Hstep; subst. unfold inv, upd; cbn. apply Forall_set_thread; auto.
     unfold thread_ok, hlocks; cbn. fold (hlocks t). rewrite Hok. apply Hord.
+  - (* Once *) destruct (flag_set op s x); inversion Hstep; subst; unfold inv, upd; cbn;
+      apply Forall_set_thread; auto; unfold thread_ok, hlocks; cbn; auto.
+  - (* Wake *) inversion Hstep; subst. unfold inv, upd; cbn. apply Forall_set_thread; auto.
+  - (* SendIfOpen *) destruct (flag_set op s x); [|destruct (chan_closed op s c)];
+      inversion Hstep; subst; unfold inv, upd; cbn; auto; apply Forall_set_thread; auto.
 Qed.
 
 Lemma inv_reachable : forall s0 s, inv s0 -> reachable s0 s -> inv s.
@@ -258,6 +263,8 @@ Proof.
   - destruct (chan_closed op s c); eauto.
   - destruct (chan_closed op s c); eauto.
   - destruct (flag_set op s x); eauto.
+  - destruct (flag_set op s x); eauto.
+  - destruct (flag_set op s x); [|destruct (chan_closed op s c)]; eauto.
 Qed.
 
 (* While some thread has work left and the program has not panicked, some
